@@ -8,6 +8,7 @@
  * visible) only alert records may be emitted. */
 #include "mxv.h"
 #include "wire.h"
+#include "tk.h"
 
 #define MAXCFG 96
 static wcfg_t cfgs[MAXCFG];
@@ -22,10 +23,12 @@ static const int alert_descs[] = { 0, 10, 20, 21, 22, 30, 40, 41, 42, 43, 44, 45
                                    100, 109, 110, 112, 113, 115, 116, 120, 255 };
 #define NALERT ((int) (sizeof(alert_descs) / sizeof(alert_descs[0])))
 
-enum { K_PLAIN_ALERT = 0, K_PEER_FATAL, K_PEER_CLOSE, K_CORRUPT, K_ILLEGAL_HS, K_OVERSIZE, K_BADVER, K_TRUNC_TAG, K_NKIND };
-static const char *kname[] = { "fatal-alert", "peer-fatal-alert", "peer-close-notify", "corrupt-record", "illegal-hs-msg", "oversize-record", "bad-version", "warning-close-notify" };
+/* K_PROT_ALERT (TLS 1.3): a correctly protected alert record an honest MatrixSSL peer never sends: a = level << 8 | description,
+ * sealed by the toolkit under the traffic secret the victim currently reads with (a malicious peer's own key) */
+enum { K_PLAIN_ALERT = 0, K_PEER_FATAL, K_PEER_CLOSE, K_CORRUPT, K_ILLEGAL_HS, K_OVERSIZE, K_BADVER, K_TRUNC_TAG, K_PROT_ALERT, K_NKIND };
+static const char *kname[] = { "fatal-alert", "peer-fatal-alert", "peer-close-notify", "corrupt-record", "illegal-hs-msg", "oversize-record", "bad-version", "warning-close-notify", "protected-alert" };
 typedef struct { int kind, a; } kill_t;
-static kill_t kills[64];
+static kill_t kills[128];
 static int nkill;
 
 enum { C_HONEST_REST = 0, C_ORIGINAL, C_FRESH_APP, C_GARBAGE, C_PROBE, C_CLOSE_PROBE, C_PLAIN23, C_TIMEOUT, C_NCONT };
@@ -37,6 +40,7 @@ typedef struct {
     unsigned char orig[20000];
     int orig_len;
     int malformed_hello;
+    int prot_alert_sent;
 } gctx_t;
 
 static void build_kills(void)
@@ -60,6 +64,17 @@ static void build_kills(void)
     kills[nkill++] = (kill_t) { K_BADVER, 1 };     /* a real version of the same family, but not the negotiated one */
     kills[nkill++] = (kill_t) { K_BADVER, 2 };     /* a version of the other family (DTLS <-> TLS) */
     kills[nkill++] = (kill_t) { K_TRUNC_TAG, 0 };  /* warning-level close_notify in plaintext */
+    {
+        static const int lv[] = { 1, 2, 0, 3 }, ds[] = { 10, 20, 40, 47, 50, 80, 109, 255, 90, 0 };
+        int a, b;
+        for (a = 0; a < 4; a++)
+        {
+            for (b = 0; b < 10; b++)
+            {
+                kills[nkill++] = (kill_t) { K_PROT_ALERT, (lv[a] << 8) | ds[b] };
+            }
+        }
+    }
 }
 
 static int reach_state(gctx_t *g)
@@ -130,6 +145,39 @@ static int apply_kill(gctx_t *g, const kill_t *k)
         body[0] = 1; body[1] = 0;
         len = mk_record(rec, dtls, 21, maj, min, 0, 41, body, 2);
         return world_feed(&g->w, v, rec, len);
+    case K_PROT_ALERT:
+    {
+        unsigned char sec[64];
+        tk13_keys_t fk;
+        ssl_t *ssl = g->w.s[v].ssl;
+        int sl, hl, i, done = world_is_complete(&g->w, v);
+        uint16_t suite;
+        if (!ssl || !ssl->cipher || !NGTD_VER(ssl, v_tls_1_3_any))
+        {
+            return 1;
+        }
+        suite = (uint16_t) ssl->cipher->ident;
+        if (suite != TLS_AES_128_GCM_SHA256 && suite != TLS_AES_256_GCM_SHA384 && suite != TLS_CHACHA20_POLY1305_SHA256)
+        {
+            return 1;
+        }
+        hl = suite == TLS_AES_256_GCM_SHA384 ? 48 : 32;
+        sl = tk_keylog_find(done ? (v == 0 ? "s ap traffic" : "c ap traffic") : (v == 0 ? "s hs traffic" : "c hs traffic"), sec);
+        if (sl != hl || tk13_keys_from_secret(&fk, suite, sec, hl) < 0)
+        {
+            return 1;
+        }
+        fk.seq = 0;
+        for (i = 0; i < 8; i++) fk.seq = (fk.seq << 8) | ssl->sec.remSeq[i];
+        body[0] = (unsigned char) (k->a >> 8); body[1] = (unsigned char) k->a;
+        len = tk13_seal(&fk, 21, body, 2, rec);
+        if (len <= 0)
+        {
+            return 1;
+        }
+        g->prot_alert_sent = 1;
+        return world_feed(&g->w, v, rec, len);
+    }
     case K_PEER_FATAL:
     {
         /* make the honest peer emit a genuine (possibly protected) fatal alert */
@@ -267,6 +315,10 @@ static int is_dead(gctx_t *g)
     {
         return 1; /* the session encoded a fatal alert of its own */
     }
+    if (s->ssl->flags & SSL_FLAGS_ERROR)
+    {
+        return 1; /* the library's own "this session is poisoned" mark (white box): from here on the monitor must see nothing */
+    }
     return 0;
 }
 
@@ -403,6 +455,13 @@ static void run_case(void *ctx, mx_result_t *r)
             {
                 must = 1;
             }
+        }
+        if (k->kind == K_PROT_ALERT && g->prot_alert_sent)
+        {
+            /* RFC 8446 6: every alert except close_notify and user_canceled is an error alert whatever its level byte
+               says, unknown descriptions included; close_notify closes the read side (is_dead sees it as a closure) */
+            int desc = k->a & 0xff;
+            must = desc != 90 && desc != 0;
         }
         if (must && (k->kind != K_BADVER || g->orig_len > 0))
         {
